@@ -452,7 +452,9 @@ SOFT_KEYS = {"pts", "ordered", "perm", "uniq", "hps", "poly3d", "poly",         
              # per-contact rows of hydroelastic bodies: a sliver contact (two tetrahedra touching along an edge, area ~1e-16)
              # exists / has a centre of pressure only up to rounding; the aggregates (wrenches, force and area sums) are strict
              "contacts", "forces", "coms", "n_contacts", "n", "reported_pairs", "all_pairs", "min_normal_ratio", "sw_poly", "sw_plane",
-             "n_narrow", "narrow_only_tree", "narrow_only_brute"}
+             "n_narrow", "narrow_only_tree", "narrow_only_brute",
+             # c14: battery of support queries on lattice colliders: ties between equally extreme points (own support families compare by value)
+             "support"}
 SOFT_HITS = []
 
 
@@ -645,6 +647,61 @@ def compare_distance(c, ja, jb, T):
     return None
 
 
+def compare_c15_pair(c, ja, jb, T):
+    """one tetrahedron pair through all stages (harness/impl/c15.py, kind "pair"): the PUBLIC outputs of
+    intersect_tetrahedron_pair / compute_contact_force are judged -- intersection flag, contact area, force -- the
+    stages (half planes, raw intersection points, their order, unfiltered polygons) are internal and only counted.
+    A flag that differs on a sliver contact (area <= 1e-9: the two tetrahedra touch along an edge / in a vertex) and a
+    force that differs because the equal-pressure plane itself is rounding noise (different plane normals in the two
+    modes: class of the C16 finding F17) are decision-boundary cases."""
+    fails = []
+    for o in ("o12", "o21"):
+        a, b = ja.get(o), jb.get(o)
+        if a is None or b is None:
+            if (a is None) != (b is None):
+                fails.append(f"{o}: present in one mode only")
+            continue
+        ia, ib = bool(a.get("inter")), bool(b.get("inter"))
+        if ia != ib:
+            area = float((a if ia else b).get("area", 0.0) or 0.0)
+            if area <= 1e-9:
+                T.hit("hydro_pair_flag_differs_on_sliver")
+            else:
+                fails.append(f"{o}: intersect flag {ia} compiled vs {ib} interpreted with contact area {area:.3g}")
+            continue
+        if not ia:
+            T.hit("hydro_pair_no_contact_both")
+            continue
+        aa, ab = float(a.get("area", 0.0)), float(b.get("area", 0.0))
+        fa, fb = np.array(a.get("force", [0, 0, 0]), float), np.array(b.get("force", [0, 0, 0]), float)
+        na, nb = np.array(a.get("plane", [0, 0, 0, 0]), float)[:3], np.array(b.get("plane", [0, 0, 0, 0]), float)[:3]
+        noise = float(np.linalg.norm(na - nb)) > 1e-6
+        if abs(aa - ab) > 1e-9 + 1e-6 * max(aa, ab) or float(np.linalg.norm(fa - fb)) > 1e-12 + 1e-6 * max(float(np.linalg.norm(fa)), float(np.linalg.norm(fb))):
+            if noise:
+                T.hit("hydro_pair_noise_plane")
+            elif max(aa, ab) <= 1e-9:
+                T.hit("hydro_pair_sliver")
+            else:
+                fails.append(f"{o}: area {aa!r} / force {fa.tolist()} compiled vs area {ab!r} / force {fb.tolist()} interpreted")
+        else:
+            T.hit("hydro_pair_area_force_equal")
+    return "; ".join(fails) if fails else None
+
+
+def c16_unstable(j):
+    """harness/impl/c16.py evaluates the SAME scene several times on the same bodies (base, repeat1, repeat2, internals,
+    inter_back); each evaluation re-expresses body 1 in the frame of body 2, which moves its vertices by an ulp.  If these
+    evaluations disagree within ONE mode, the scene sits on a decision boundary of the contact computation (a tetrahedron
+    pair whose intersection test flips under a 1-ulp change): a difference between the modes is then not attributable to
+    the mode."""
+    ws = [np.array(j[k]["w21"], float) for k in ("base", "repeat1", "repeat2", "internals", "inter_back")
+          if isinstance(j.get(k), dict) and j[k].get("w21") is not None]
+    if len(ws) < 2:
+        return False
+    scale = max(float(np.linalg.norm(w)) for w in ws)
+    return any(float(np.linalg.norm(w - ws[0])) > 1e-9 * scale + 1e-15 for w in ws[1:])
+
+
 def noise_plane_case(a, b):
     """class of the C16 known finding F17: some reported tetrahedron pair has an equal-pressure plane whose raw normal is
     rounding noise (c16 worker's `min_normal_ratio` < 1e-9 in either mode): its direction, hence the forces, depend on 1-ulp
@@ -729,7 +786,7 @@ def compare_collider(c, rj, ri, T):
             continue
         tol = COLL_TOL.get(fn, 1e-9) * L
         for key in sorted(set(a) | set(b)):
-            if key in ("fn", "n_points"):
+            if key in ("fn", "n_points", "simplex", "last_simplex", "last_d2"):     # diagnostics of the worker, path dependent
                 continue
             x, y = a.get(key), b.get(key)
             if isinstance(x, bool) or isinstance(y, bool):
@@ -920,6 +977,16 @@ def run(tier, seed, replay=None):
             what = compare_distance(c, a["ok"]["json"], b["ok"]["json"], T)
             fam_cmp[fam] = fam_cmp.get(fam, 0) + 1
             distinct.add(cm.canon_hash(c["pcase"]))
+        elif c["k"] == "worker" and c.get("module") == "c15" and c["case"].get("kind") == "pair" \
+                and "exc" not in a["ok"]["json"] and "exc" not in b["ok"]["json"]:
+            w15 = compare_c15_pair(c, a["ok"]["json"], b["ok"]["json"], T)
+            if w15:
+                what = f"hydro-c15 pair ({c['case'].get('cls')}): " + w15
+            fam_cmp[fam] = fam_cmp.get(fam, 0) + 1
+            distinct.add(cm.canon_hash(c["case"]))
+        elif c["k"] == "worker" and c.get("module") == "c16" and "exc" not in a["ok"]["json"] and "exc" not in b["ok"]["json"] \
+                and (c16_unstable(a["ok"]["json"]) or c16_unstable(b["ok"]["json"])):
+            T.hit("hydro_c16_scene_unstable_under_1ulp_drift_within_one_mode")
         elif c["k"] == "worker" and c.get("module") == "c16" and "F17" in c12.foreign_known("C16") \
                 and noise_plane_case(a["ok"]["json"], b["ok"]["json"]):
             T.hit("skip_known_F17_noise_plane")
